@@ -260,7 +260,12 @@ fn page_chain_with(h: &mut Hist, ctx: &mut Ctx, real_limit: bool) {
         // interleave events
         let n_ev = h.rng.range(0, 2);
         for _ in 0..n_ev {
-            let ev = *h.rng.pick(&[Ev::GrowBest, Ev::GrowCompetitor, Ev::GrowCompetitor, Ev::Stabilise, Ev::DiscardTipChain, Ev::Upgrade, Ev::None]);
+            let ev = if real_limit {
+                // many outputs of one transaction: the interesting transition is unstable -> stable
+                *h.rng.pick(&[Ev::Stabilise, Ev::Stabilise, Ev::Stabilise, Ev::GrowBest, Ev::GrowCompetitor, Ev::Upgrade, Ev::None])
+            } else {
+                *h.rng.pick(&[Ev::GrowBest, Ev::GrowCompetitor, Ev::GrowCompetitor, Ev::Stabilise, Ev::DiscardTipChain, Ev::Upgrade, Ev::None])
+            };
             if ev != Ev::None {
                 events.push(format!("{:?}", ev));
                 ctx.cov.count(&format!("c06_event_{:?}", ev));
